@@ -23,6 +23,8 @@ def hyps (req : Sexp) : Option Sexp :=
   | .list [.atom "describe", _, prog, _, _] => some (Driver.describeHyps prog)
   | .list [.atom "sub", _, .list decls, a, b, _] => some (Driver.subSpec decls a b)
   | .list [.atom "sem", _, prog, _, .list vals] => some (Driver.semSpec prog vals)
+  | .list [.atom "semstrict", _, prog, _, .list vals] => some (Driver.semStrictSpec prog vals)
+  | .list [.atom "pschema", _, prog, _, _] => some (Driver.progSchemaHyps prog)
   | .list [.atom "schema-ctx", env, .list rts, .str template, _, .list ovs, .list calls, _] => some (Driver.schemaHyps env rts template ovs calls)
   | _ => none
 
@@ -43,6 +45,8 @@ def handle (req : Sexp) : Sexp :=
   | .list [.atom "watch", _, files, ops] => Driver.watchOp files ops
   | .list [.atom "sub", _, .list decls, a, b, _] => Driver.subOp decls a b
   | .list [.atom "sem", _, prog, _, .list vals] => Driver.semOp prog vals
+  | .list [.atom "semstrict", _, prog, _, .list vals] => Driver.semStrictOp prog vals
+  | .list [.atom "pschema", _, _, _, _] => .atom "untied"
   | .list [.atom "h256", _, _, e1, r1, e2, r2, .list vals] => Driver.h256Op e1 r1 e2 r2 vals
   | .list [.atom "rtd", _, e, r, _] => Driver.rtdOp e r
   | .list [.atom "loc", .str src, .atom lo, .atom hi] => Driver.locOp src (lo.toNat?.getD 0) (hi.toNat?.getD 0)
